@@ -1,10 +1,11 @@
 #!/bin/sh
-# run every registered check (quick by default) one after the other; summary on stdout
+# run every registered check (quick by default) one after the other; one summary line per property on stdout
 cd "$(dirname "$0")"
 TIER=${1:-quick}
+mkdir -p build
 for p in $(python3 -c "import json;print(' '.join(c['property_id'] for c in json.load(open('MANIFEST.json'))['checks']))"); do
   s=$(date +%s)
-  out=$(./check $p --tier $TIER 2>&1 | tail -3)
+  ./check $p --tier $TIER > build/run_all.$p.out 2>&1
   rc=$?
-  echo "$p rc=$rc $(( $(date +%s) - s ))s :: $(echo "$out" | tail -1 | cut -c1-200)"
+  echo "$p rc=$rc $(( $(date +%s) - s ))s :: $(tail -1 build/run_all.$p.out | cut -c1-200)"
 done
